@@ -253,6 +253,8 @@ def axioms_for(atoms):
         elif a[0] == "and1":  # x & 1  (with shr1(x): x = 2*shr1 + and1)
             b = Poly.atom(a)
             out.append((">=", Poly.const(1) - b))
+        elif a[0] == "band" and len(a) == 3:  # x & (2^k - 1)
+            out.append((">=", Poly.const(a[2]) - Poly.atom(a)))
         elif a[0] == "ridx" and len(a) == 4:  # index yielded by `lo..hi`
             out.append((">=", Poly.atom(a) - a[2]))
             out.append((">=", a[3] - Poly.atom(a) - Poly.const(1)))
@@ -272,6 +274,10 @@ def and1_identities(atoms):
         if isinstance(a, tuple) and a[0] == "and1":
             x = a[1]
             out.append(("==", x - Poly.atom(("shr1", x)) * Poly.const(2) - Poly.atom(a)))
+        if isinstance(a, tuple) and a[0] == "band" and len(a) == 3:
+            x, k = a[1], (a[2] + 1).bit_length() - 1
+            if ("shr", x, k) in atoms:  # x = 2^k * (x >> k) + (x & (2^k - 1))
+                out.append(("==", x - Poly.atom(("shr", x, k)) * Poly.const(1 << k) - Poly.atom(a)))
     return out
 
 
@@ -421,7 +427,7 @@ def _prove1(goal, facts, budget=1500):
     # atoms nested inside interpreted atoms
     more = set()
     for a in atoms:
-        if isinstance(a, tuple) and a[0] in ("min", "div", "shr1", "and1", "chunklen", "ridx"):
+        if isinstance(a, tuple) and a[0] in ("min", "div", "shr1", "and1", "shr", "band", "chunklen", "ridx"):
             for x in a[1:]:
                 if isinstance(x, Poly):
                     more |= x.atoms()
